@@ -20,3 +20,82 @@ package sign
 //@   ensures[C20] result1 == nil ==> (config != nil && len(message) > 0)
 //@   ensures[C20] result1 == nil ==> (lastresult(CanSign) && result0 != nil)
 //@   loop 1: invariant PublicKey != nil && fresh(ECDSA) && fresh(Paillier) && fresh(Pedersen)
+
+// ---- message handlers of the signing rounds (C05, C03)
+// per-party public data is complete for every signer (established by the start function from a well-formed config)
+//@ pred sgparty(r *round1, j party.ID) := pkok(r.Paillier[j]) && pkvals(r.Paillier[j]) && pkbig(r.Paillier[j]) && pedok(r.Pedersen[j]) && r.ECDSA[j] != nil
+//@ pred sg1ok(r *round1) := r != nil && r.Helper != nil && r.Helper.hash != nil && r.Helper.hash.h != nil && r.Helper.info.Group != nil && !held(r.Helper.mtx) && r.Paillier != nil && r.Pedersen != nil && r.ECDSA != nil && r.SecretPaillier != nil
+//@ pred sg2ok(r *round2) := r != nil && sg1ok(r.round1) && r.K != nil && r.G != nil && r.BigGammaShare != nil && r.K != r.G
+//@ pred sg3ok(r *round3) := r != nil && sg2ok(r.round2) && r.DeltaShareAlpha != nil && r.ChiShareAlpha != nil
+
+// what the CBOR decoder leaves in the message template of MessageContent() (A-CBOR): a proof is absent or keeps its shape
+//@ pred dec_sm3(m *message3) := (m.DeltaProof != nil ==> zkaffg.shaped(m.DeltaProof)) && (m.ChiProof != nil ==> zkaffg.shaped(m.ChiProof)) && (m.ProofLog != nil ==> zklogstar.shaped(m.ProofLog))
+
+// Round 3 (C05, C03): for ANY decoded message -- absent proofs, absent ciphertexts -- the MtA and log proofs are verified
+// without a panic, against the recipient's own K and parameters and the sender's Gamma share, key share and G.
+//@ func (*round3).VerifyMessage
+//@   nopanic[C05]
+//@   requires sg3ok(r) && msg.Content != nil && (typeis(msg.Content, *message3) ==> (msg.Content.(*message3) != nil ==> dec_sm3(msg.Content.(*message3))))
+//@   requires sgparty(r.round1, msg.From) && sgparty(r.round1, msg.To) && r.K[msg.To] != nil && r.G[msg.From] != nil && r.BigGammaShare[msg.From] != nil
+//@   let body = msg.Content.(*message3)
+//@   ensures[C03] result == nil ==> typeis(msg.Content, *message3) && body != nil && lastresult(Verify)
+//@   assert_at[C03] Verify "if !body.DeltaProof.Verify(r.HashForID(from), zkaffg.Public{": arg2.Kv == r.K[msg.To] && arg2.Dv == body.DeltaD && arg2.Fp == body.DeltaF && arg2.Xp == r.BigGammaShare[msg.From] && arg2.Prover == r.Paillier[msg.From] && arg2.Verifier == r.Paillier[msg.To] && arg2.Aux == r.Pedersen[msg.To]
+//@   assert_at[C03] Verify "if !body.ChiProof.Verify(r.HashForID(from), zkaffg.Public{": arg2.Kv == r.K[msg.To] && arg2.Dv == body.ChiD && arg2.Fp == body.ChiF && arg2.Xp == r.ECDSA[msg.From] && arg2.Prover == r.Paillier[msg.From] && arg2.Verifier == r.Paillier[msg.To] && arg2.Aux == r.Pedersen[msg.To]
+//@   assert_at[C03] Verify "if !body.ProofLog.Verify(r.HashForID(from), zklogstar.Public{": arg2.C == r.G[msg.From] && arg2.X == r.BigGammaShare[msg.From] && arg2.Prover == r.Paillier[msg.From] && arg2.Aux == r.Pedersen[msg.To] && called(Verify)
+
+//@ pred sg4ok(r *round4) := r != nil && sg3ok(r.round3) && r.DeltaShares != nil && r.BigDeltaShares != nil && r.Gamma != nil
+//@ pred dec_sb3(b *broadcast3) := b.BigGammaShare != nil
+//@ pred dec_sb4(b *broadcast4) := b.DeltaShare != nil && b.BigDeltaShare != nil
+//@ pred dec_sm4(m *message4) := m.ProofLog != nil ==> zklogstar.shaped(m.ProofLog)
+//@ pred dec_sb5(b *broadcast5) := b.SigmaShare != nil
+
+// Round 2: K and G are stored only if they are valid ciphertexts under the SENDER's key; the encryption proof for K is
+// checked against the sender's key and the recipient's own auxiliary parameters.
+//@ func (*round2).StoreBroadcastMessage
+//@   nopanic[C05]
+//@   requires sg2ok(r) && msg.Content != nil && sgparty(r.round1, msg.From)
+//@   let body = msg.Content.(*broadcast2)
+//@   ensures[C03] result == nil ==> typeis(msg.Content, *broadcast2) && body != nil && body.K != nil && body.G != nil && lastresult(ValidateCiphertexts)
+//@   ensures[C03] result == nil ==> r.K[msg.From] == body.K && r.G[msg.From] == body.G
+//@   assert_at[C03] ValidateCiphertexts "ValidateCiphertexts(body.K, body.G)": len(arg1) == 2 && arg1[0] == body.K && arg1[1] == body.G
+//@ func (*round2).VerifyMessage
+//@   nopanic[C05]
+//@   requires sg2ok(r) && msg.Content != nil && sgparty(r.round1, msg.From) && sgparty(r.round1, msg.To) && r.K[msg.From] != nil
+//@   let body = msg.Content.(*message2)
+//@   ensures[C03] result == nil ==> typeis(msg.Content, *message2) && body != nil && body.ProofEnc != nil && lastresult(Verify)
+//@   assert_at[C03] Verify "if !body.ProofEnc.Verify(r.Group(), r.HashForID(from), zkenc.Public{": arg3.K == r.K[msg.From] && arg3.Prover == r.Paillier[msg.From] && arg3.Aux == r.Pedersen[msg.To]
+
+// Round 3 broadcast: the Gamma share is stored only if it is not the identity.
+//@ func (*round3).StoreBroadcastMessage
+//@   nopanic[C05]
+//@   requires sg3ok(r) && msg.Content != nil && (typeis(msg.Content, *broadcast3) ==> (msg.Content.(*broadcast3) != nil ==> dec_sb3(msg.Content.(*broadcast3))))
+//@   let body = msg.Content.(*broadcast3)
+//@   ensures[C03] result == nil ==> typeis(msg.Content, *broadcast3) && body != nil && ptval(body.BigGammaShare) != p_id() && r.BigGammaShare[msg.From] == body.BigGammaShare
+// Round 3 store (runs only after VerifyMessage accepted: handler gate): both ciphertexts decrypt, or an error.
+//@ func (*round3).StoreMessage
+//@   nopanic[C05]
+//@   requires sg3ok(r) && typeis(msg.Content, *message3) && msg.Content.(*message3) != nil
+//@   requires r.SecretPaillier.PublicKey != nil && pkok(r.SecretPaillier.PublicKey) && pkvals(r.SecretPaillier.PublicKey) && r.SecretPaillier.phi != nil && r.SecretPaillier.phiInv != nil
+
+// Round 4: delta shares are stored only if non-zero / non-identity; the log proof ties the sender's K to its Delta share
+// over the common Gamma.
+//@ func (*round4).StoreBroadcastMessage
+//@   nopanic[C05]
+//@   requires sg4ok(r) && msg.Content != nil && (typeis(msg.Content, *broadcast4) ==> (msg.Content.(*broadcast4) != nil ==> dec_sb4(msg.Content.(*broadcast4))))
+//@   let body = msg.Content.(*broadcast4)
+//@   ensures[C03] result == nil ==> typeis(msg.Content, *broadcast4) && body != nil && scval(body.DeltaShare) != s_zero() && ptval(body.BigDeltaShare) != p_id()
+//@   ensures[C03] result == nil ==> r.DeltaShares[msg.From] == body.DeltaShare && r.BigDeltaShares[msg.From] == body.BigDeltaShare
+//@ func (*round4).VerifyMessage
+//@   nopanic[C05]
+//@   requires sg4ok(r) && msg.Content != nil && (typeis(msg.Content, *message4) ==> (msg.Content.(*message4) != nil ==> dec_sm4(msg.Content.(*message4))))
+//@   requires sgparty(r.round1, msg.From) && sgparty(r.round1, msg.To) && r.K[msg.From] != nil && r.BigDeltaShares[msg.From] != nil
+//@   let body = msg.Content.(*message4)
+//@   ensures[C03] result == nil ==> typeis(msg.Content, *message4) && body != nil && lastresult(Verify)
+//@   assert_at[C03] Verify "if !body.ProofLog.Verify(r.HashForID(from), zkLogPublic) {": arg2.C == r.K[msg.From] && arg2.X == r.BigDeltaShares[msg.From] && arg2.G == r.Gamma && arg2.Prover == r.Paillier[msg.From] && arg2.Aux == r.Pedersen[msg.To]
+
+// Round 5: a signature share is stored only if non-zero.
+//@ func (*round5).StoreBroadcastMessage
+//@   nopanic[C05]
+//@   requires r != nil && r.SigmaShares != nil && msg.Content != nil && (typeis(msg.Content, *broadcast5) ==> (msg.Content.(*broadcast5) != nil ==> dec_sb5(msg.Content.(*broadcast5))))
+//@   let body = msg.Content.(*broadcast5)
+//@   ensures[C03] result == nil ==> typeis(msg.Content, *broadcast5) && body != nil && scval(body.SigmaShare) != s_zero() && r.SigmaShares[msg.From] == body.SigmaShare
